@@ -6,7 +6,6 @@ import CimbaModel.Sim.Basic
 import CimbaModel.HashHeap.Orders
 import CimbaModel.Sim.S2PoolCalls
 import CimbaModel.Sim.S2PoolFull
-import CimbaModel.Props.C02
 
 namespace CimbaModel.Props.C07
 open CimbaModel CimbaModel.Sim CimbaModel.Event CimbaModel.Generated CimbaModel.HashHeap.SpecOrders CimbaModel.KPQ
@@ -81,7 +80,7 @@ theorem pool_invariant_initial (w : World) (hn : w.procs.size < 2 ^ 31)
   intro pl v hv
   obtain ⟨x, hx, rfl⟩ := poolView_some.1 hv
   obtain ⟨h0, e, he1, he31, hh⟩ := hpools pl x hx
-  obtain ⟨s, hinit, hwf, habs⟩ := CimbaModel.Props.C02.init_WF (lt := holder_queue_check) e he1 he31
+  obtain ⟨s, hinit, hwf, habs, _⟩ := CimbaModel.HashHeap.init_spec (lt := holder_queue_check) e he1 he31
   have hs : x.holders = s := by rw [hh]; unfold mkHH; rw [hinit]
   constructor
   · refine ⟨⟨by show WF _ x.holders; rw [hs]; exact hwf, ?_, ?_, ?_⟩, ?_, ?_⟩
